@@ -81,6 +81,7 @@ func (x *ChanCaster[C, V]) Send(value V) int {
 		// synchronise with decrements of receivers
 		tracker += math.MaxInt32
 		if x.state.CompareAndSwap(state, uint64(receivers)<<32|uint64(tracker)) {
+			verifPoint(verifCasterArmed)
 			break
 		}
 	}
@@ -165,6 +166,7 @@ func (x *ChanCaster[C, V]) Add(delta int) int {
 
 		// note: same delta calc as above, subtracted using two's complement rules
 		state := x.state.Add(^(uint64(delta)<<32 | uint64(uint32(delta)) - 1))
+		verifPoint(verifCasterNegAdded)
 
 		// validate, and, if necessary, receive any channel sends that would
 		// otherwise never be received (to avoid Send hanging)
